@@ -92,7 +92,7 @@ theorem live_step {s : State} (i : Inv s) {a : Alias} (ha : a ∈ s.aliases) (hl
     stays live, stays registered and keeps its bytes through ANY further operations (other readers
     and writers recycling the pools, reads, seeks and Close of any reader, ...) as long as the
     application does not itself end the lifetime: release the page the values were read from
-    (`.page`), or call the same plain value reader again (`.call`). Rows returned by a row reader
+    (`.page`), or call the same plain value reader again (`.call`; Read, Seek, Reset, Close). Rows returned by a row reader
     (`.forever`, this covers `ReadRows` results and their clones) are never invalidated. -/
 theorem alias_unchanged (det : RdrId → Bool) (ops : List Op) (a : Alias)
     (ha : a ∈ (reach det ops).aliases) (hl : a.live (reach det ops)) (later : List Op)
@@ -151,7 +151,7 @@ def first : List Op := [.vrRead 0 [⟨false, [pg 7 0 0 0 0], true⟩]]
     pooled buffers 0, 2, 3 of the first one), is closed, and unrelated activity churns the pool -/
 def later : List Op :=
   [.vrRead 0 [⟨false, [], false⟩, ⟨false, [pg 8 0 2 3 0], true⟩],
-   .vrSeek 0 true, .vrClose 0,
+   .vrSeek 0 true, .vrReset 0 false, .vrClose 0,
    .churn [(2, [0xEE]), (3, [0xEE]), (0, [0xEE])]]
 
 def rowAlias : Alias := ⟨0, .forever, [7, 7]⟩
